@@ -125,6 +125,8 @@ AckInstrs(c, m) ==
   IF ~c.ackable THEN <<>>
   ELSE IF MsgC(c, m).ackfail THEN <<I("ack", m, 0, "", "die", NoG, "")>>
   ELSE IF c.ackasync THEN <<I("ack", m, 0, "", "yield", NoG, ""), I("ack_e", m, 0, "", "go", NoG, "")>>
+  ELSE IF c.ackfut THEN      \* the ack's work runs in its own task: the callback is suspended before it starts and until it ends
+         <<I("", 0, 0, "", "yield", NoG, ""), I("ack", m, 0, "", "gate", <<"ack", m, 0>>, ""), I("ack_e", m, 0, "", "yield", NoG, "")>>
   ELSE <<I("ack", m, 0, "", "go", NoG, "")>>
 
 IsAsyncStyle(st) == st \in {"aplain", "agen", "acm"}
@@ -339,6 +341,7 @@ GateKeys == {key \in {<<h, m, i>> : h \in {"pre", "onerr", "post", "postsave"}, 
             \cup {<<"dep", m, cfg.deps[j].id>> : m \in {mm \in Msgs : DepsOf(cfg, mm) # <<>>},
                                                  j \in {jj \in DOMAIN cfg.deps : cfg.deps[jj].suspend /\ IsAsyncStyle(cfg.deps[jj].style)}}
             \cup {<<"save", m, 0>> : m \in {mm \in Msgs : cfg.bsusp /\ IsValid(cfg, mm)}}
+            \cup {<<"ack", m, 0>> : m \in {mm \in Msgs : cfg.ackfut /\ cfg.ackable /\ IsValid(cfg, mm) /\ ~MsgC(cfg, mm).ackfail}}
 OpenGate(key) ==
   /\ EnvOK /\ key \notin opened
   /\ opened' = opened \cup {key}
